@@ -1877,6 +1877,11 @@ def g_c15(r, tier, env, Ls):
             c = Case("ratesx" + line[len("rates"):], meta, "rates", oracle=oracle_rates, drift_ok=rates_drift_ok, tags=tags + ["builder_reused"],
                      nontrivial=meta["nproc"] > 1, model_line=line)
             cs.append(c); continue
+        if meta["nlabels"] >= 1 and r.chance(0.35):
+            # the custom parameters are set POSITIONALLY (UnsafelySetCustomRateParameters, rows in the State's label order)
+            c = Case("ratesu" + line[len("rates"):], meta, "rates", oracle=oracle_rates, drift_ok=rates_drift_ok, tags=tags + ["positional_setter"],
+                     nontrivial=meta["nproc"] > 1, model_line=line)
+            cs.append(c); continue
         cs.append(Case(line, meta, "rates", oracle=oracle_rates, drift_ok=rates_drift_ok, tags=tags, nontrivial=meta["nproc"] > 1))
     return cs
 
